@@ -752,6 +752,16 @@ func (w *c07World) coverage() {
 	c07Cov[w.sc.name+": executions"]++
 }
 
+// closedDuring: a Close event of d's session id was logged inside d's processing window
+func (w *c07World) closedDuring(d *c07DgRec) bool {
+	for _, ev := range w.evs {
+		if ev.kind == "close" && ev.id == d.id && ev.seq > d.act.sDel && (!d.act.done || ev.seq < d.act.sDone) {
+			return true
+		}
+	}
+	return false
+}
+
 func (w *c07World) final() {
 	e := w.e
 	w.coverage()
@@ -797,6 +807,11 @@ func (w *c07World) final() {
 			if len(d.socks) != 0 {
 				e.Fail("C07 fresh-session: socket opened despite the dial failure (session %d)", d.id)
 			}
+			continue
+		}
+		if w.closedDuring(d) {
+			// the fresh session was itself closed (sweep, read/send error, final cleanup) while this
+			// datagram was still being processed: the datagram raced with that removal and may be dropped
 			continue
 		}
 		if len(d.socks) != 1 || d.news != 1 {
@@ -988,7 +1003,7 @@ func c07Scenarios() []*c07Scn {
 		{name: "T-races-with-faults", thorough: t2, twin: td, thOnly: true, fDial: true,
 			envs:   [][]c07Step{{c07Dg(1, "x:1"), c07Re(1)}, {c07Wc(1), c07Dg(1, "x:1"), c07Dg(1, "x:1")}},
 			checks: []int64{s / 2}},
-		{name: "T-fragment-reuse-loss", thorough: t2, twin: td, thOnly: true, racyLoss: true, fWrite: true,
+		{name: "T-fragment-reuse-loss", thorough: t2, twin: td4, thOnly: true, racyLoss: true, fWrite: true,
 			envs:   [][]c07Step{{c07F1(1), c07F2(1), c07Rp(1), c07Re(1), c07F1(1), c07F2(1)}},
 			checks: []int64{s}},
 	}
